@@ -174,13 +174,16 @@ class Shipper:
     """collate_fn wrapper of the real-loader runs: applies the stack's collate function (if any) and attaches the probe
     log of the batch (picklable: module-level class)"""
 
-    def __init__(self, inner=None):
+    def __init__(self, inner=None, seeded=False):
         self.inner = inner
+        self.seeded = seeded     # batches of a part served by a SEEDED wrapper: its draws are a function of the index (C08)
 
     def __call__(self, batch):
         out = self.inner(batch) if self.inner is not None else list(batch)
         log = list(PROBE_LOG)
         PROBE_LOG.clear()
+        if self.seeded:
+            log = [("seeded:" + e[0],) + tuple(e[1:]) for e in log]
         return out, log
 
 
@@ -190,6 +193,8 @@ def tree_nodes(node):
     if node["t"] in ("compose", "semseg_seq"):
         for m in node["members"]:
             yield from tree_nodes(m)
+        if node.get("late"):
+            yield from tree_nodes(node["late"]["member"])
     elif node["t"] in ("random_apply", "patchwise", "scheduled"):
         yield from tree_nodes(node["child"])
 
@@ -199,7 +204,36 @@ def has_probe(node):
 
 
 def build_tree(node):
-    """h07 node or probe tree -> transform (scheduled members are built inactive: the worker hook activates them)"""
+    """h07 node or probe tree -> transform (scheduled members are built inactive: the worker hook activates them).
+    probe-tree compose nodes may carry {"late": {"op": "append"|"insert"|"replace", "pos": i, "member": tnode}}: after the whole
+    tree has been constructed, the public `.transforms` list of that compose is edited (what a user does who extends a
+    ready-made pipeline) - before any worker exists. (h07 trees carry their own "edit" key, honoured by build_composition.)"""
+    obj = _build_tree(node)
+    _apply_edits(node, obj)
+    return obj
+
+
+def _apply_edits(node, obj):
+    t = node["t"]
+    if t == "compose":
+        for m, o in zip(node["members"], list(obj.transforms)):
+            _apply_edits(m, o)
+        e = node.get("late")
+        if e:
+            new = build_tree(e["member"])
+            if e["op"] == "append":
+                obj.transforms.append(new)
+            elif e["op"] == "insert":
+                obj.transforms.insert(e["pos"], new)
+            elif e["op"] == "replace":
+                obj.transforms[e["pos"]] = new
+            else:
+                raise ValueError(e["op"])
+    elif t in ("random_apply", "patchwise", "scheduled"):
+        _apply_edits(node["child"], obj.transform)
+
+
+def _build_tree(node):
     if not has_probe(node):
         node = copy.deepcopy(node)
         for n in tree_nodes(node):
@@ -218,17 +252,17 @@ def build_tree(node):
         members = []
         for m in node["members"]:
             if m["t"] == "compose" and m.get("implicit"):
-                members.append([build_tree(mm) for mm in m["members"]])
+                members.append([_build_tree(mm) for mm in m["members"]])
             else:
-                members.append(build_tree(m))
+                members.append(_build_tree(m))
         return kdt.KDComposeTransform(members)
     if t == "random_apply":
-        return kdt.KDRandomApply(transform=build_tree(node["child"]), p=node["p"])
+        return kdt.KDRandomApply(transform=_build_tree(node["child"]), p=node["p"])
     if t == "patchwise":
-        return kdt.PatchwiseTransform(patch_size=node["patch"], transform=build_tree(node["child"]))
+        return kdt.PatchwiseTransform(patch_size=node["patch"], transform=_build_tree(node["child"]))
     if t == "scheduled":
         kw = {} if node.get("schedule") is None else {"schedule": node["schedule"]}
-        return kdt.KDScheduledTransform(transform=build_tree(node["child"]), **kw)
+        return kdt.KDScheduledTransform(transform=_build_tree(node["child"]), **kw)
     if t == "leaf":
         return H.RECIPES[node["recipe"]].build(node["params"])
     raise ValueError(t)
@@ -241,7 +275,11 @@ def brief_tree(node):
     if t in ("probe", "semseg_probe"):
         return f"probe<{node['tag']}>"
     if t in ("compose", "semseg_seq"):
-        return ("List" if node.get("implicit") else "Compose") + "[" + ", ".join(brief_tree(m) for m in node["members"]) + "]"
+        e = node.get("late")
+        ed = f" +{e['op']}@{e.get('pos')}:{brief_tree(e['member'])}" if e else ""
+        if node.get("edit"):
+            ed += f" (member {node['edit'].get('pos', 0)} arrived after construction: {node['edit']['mode']})"
+        return ("List" if node.get("implicit") else "Compose") + "[" + ", ".join(brief_tree(m) for m in node["members"]) + ed + "]"
     if t == "random_apply":
         return f"RandomApply(p={node['p']}, {brief_tree(node['child'])})"
     if t == "patchwise":
@@ -288,7 +326,8 @@ def has_sched(tree):
 
 
 def gen_tree(rng, T, depth):
-    """random composition of real transforms for input type T that can be driven inside a dataloader worker"""
+    """random composition of real transforms for input type T that can be driven inside a dataloader worker (h07 marks about a
+    third of its composes as edited after construction: a member appended / inserted / swapped into `.transforms` afterwards)"""
     flags = {"constructible": ()}
     for attempt in range(8):
         f = dict(flags, under_schedule=True) if attempt >= 2 else flags
@@ -365,6 +404,10 @@ def _build_dataset(node, cache):
         return kw.XTransformWrapper(dataset=child, transform=build_tree(node["tree"]))
     if k == "mv":
         from kappadata.wrappers.sample_wrappers.kd_multi_view_wrapper import KDMultiViewConfig
+        shared = ("cfg", node["cfg"]) if node.get("cfg") else None
+        mv_kw = {} if node.get("seed") is None else {"seed": node["seed"]}
+        if shared is not None and shared in cache:     # ONE python list of configs handed to several wrappers
+            return kw.KDMultiViewWrapper(dataset=child, configs=cache[shared], **mv_kw)
         configs = []
         for c in node["configs"]:
             t = build_tree(c["tree"]) if c.get("tree") is not None else None
@@ -383,7 +426,9 @@ def _build_dataset(node, cache):
                 configs.append(t)
             else:
                 raise ValueError(form)
-        return kw.KDMultiViewWrapper(dataset=child, configs=configs)
+        if shared is not None:
+            cache[shared] = configs
+        return kw.KDMultiViewWrapper(dataset=child, configs=configs, **mv_kw)
     if k == "semseg":
         return kw.SemsegTransformWrapper(dataset=child, transforms=[build_tree(m) for m in node["members"]])
     if k == "mix":
@@ -428,7 +473,7 @@ def _collate_for(ds, node, ship=False, roots=()):
         else:
             inner = KDComposeCollator(cols, dataset_mode=node["mode"], return_ctx=node.get("return_ctx", False))
     if ship:
-        return Shipper(inner)
+        return Shipper(inner, seeded=any(n.get("seed") is not None for n in stack_nodes(node)))
     return inner
 
 
@@ -480,7 +525,8 @@ def build_stack(top, ship=False):
         sampler = InterleavedSampler(
             main_sampler=SequentialSampler(parts[0][0]), batch_size=B, epochs=top.get("epochs", 1), drop_last=False,
             main_collator=parts[0][1] or _plain_collate,
-            configs=[InterleavedSamplerConfig(sampler=SequentialSampler(ds), every_n_epochs=1, collator=col or _plain_collate, batch_size=B)
+            configs=[InterleavedSamplerConfig(sampler=SequentialSampler(ds), collator=col or _plain_collate, batch_size=B,
+                                              **({"every_n_updates": top["every_n_updates"]} if top.get("every_n_updates") else {"every_n_epochs": 1}))
                      for ds, col in parts[1:]],
         )
         return Built(sampler.dataset, sampler.collator, sampler=sampler, parts=parts)
